@@ -41,7 +41,11 @@ Inductive c05case :=
 (* db.DeleteRange(VersionedCtx(i, v), lo, hi) with TKeys lo, hi; db.Get of every (version, TKey) before and after *)
 | CDeleteRange (i v : N) (before : store) (table : list (bytes * verdict)) (lo hi : bytes)
                (go_ok : bool) (after : store)
-               (reads_before reads_after : list (N * bytes * res (option bytes))).
+               (reads_before reads_after : list (N * bytes * res (option bytes)))
+               (* db.KeysInRange at v over the whole class before and after, and over [lo, hi] after *)
+               (keys_before keys_after keys_after_in : res (list bytes))
+               (* db.Get of every TKey at a fresh child of v (after committing v); [] when not taken *)
+               (desc : list (bytes * res (option bytes))).
 
 Definition cxof (i v : N) : vctx := {| cx_instance := i; cx_version := v; cx_client := 0 |}.
 
@@ -83,7 +87,7 @@ Definition model_ok (c : c05case) : bool :=
                       res_eqb (opt_eqb bytes_eqb) g (point_model table i v k s)) points &&
     okeys_eqb all_keys (kv_keys (best_of table) (cxof i v) s) &&
     forallb (query_ok table i v s) queries
-  | CDeleteRange i v before table lo hi go_ok after _ _ =>
+  | CDeleteRange i v before table lo hi go_ok after _ _ _ _ _ _ =>
     match delete_range (best_of table) (cxof i v) lo hi before with
     | Ok s' => go_ok && store_eqb s' after
     | _ => false
@@ -204,21 +208,36 @@ Definition spec_class (c : c05case) : nat :=
       | Panic => 6%nat
       end in
     fold_left worse (map (spec_query table s points) queries) (worse c_keys c_multi)
-  | CDeleteRange i v before table lo hi go_ok after reads_before reads_after =>
+  | CDeleteRange i v before table lo hi go_ok after reads_before reads_after keys_before keys_after keys_after_in desc =>
     if negb go_ok then 6%nat
     else
-      (* at version v: keys of the interval that were readable are gone, everything else reads as before *)
       let get (l : list (N * bytes * res (option bytes))) (ver : N) (tk : bytes) :=
         match find (fun e => (fst (fst e) =? ver) && bytes_eqb (snd (fst e)) tk) l with
         | Some (_, _, g) => g | None => Ok None end in
-      let conflict_inside := existsb (fun e => match snd e with VConflict => in_interval lo hi (fst e) | _ => false end) table in
-      if conflict_inside then 0%nat
+      (* guard: a conflict at v stops the scan early (and hides the error); nothing is judged then *)
+      let conflict := existsb (fun e => match snd e with VConflict => true | _ => false end) table in
+      if conflict then 0%nat
       else
-      if forallb (fun e => let '(ver, tk, g) := e in
+      (* C05_delete_range_keys / _other_versions as the oracle.  Point reads: at v the keys of [lo, hi]
+         are gone and every other read — other keys, parent, siblings — is what it was *)
+      let points_ok :=
+        forallb (fun e => let '(ver, tk, g) := e in
                    if (ver =? v) && in_interval lo hi tk
                    then negb (found (get reads_after ver tk))
-                   else res_eqb (opt_eqb bytes_eqb) g (get reads_after ver tk)) reads_before
-      then 0%nat else 3%nat
+                   else res_eqb (opt_eqb bytes_eqb) g (get reads_after ver tk)) reads_before in
+      (* range reads at v: nothing is left inside [lo, hi]; outside it the listing is unchanged *)
+      let ranges_ok :=
+        match keys_before, keys_after, keys_after_in with
+        | Ok kb, Ok ka, Ok kin =>
+          match kin with [] => true | _ => false end &&
+          keys_eqb ka (filter (fun tk => negb (in_interval lo hi tk)) kb)
+        | _, _, _ => false
+        end in
+      (* a descendant of v sees what v sees *)
+      let desc_ok :=
+        forallb (fun e => if in_interval lo hi (fst e) then negb (found (snd e))
+                          else res_eqb (opt_eqb bytes_eqb) (snd e) (get reads_after v (fst e))) desc in
+      if points_ok && ranges_ok && desc_ok then 0%nat else 3%nat
   end.
 
 Fixpoint classify_from (n : nat) (l : list c05case) : list (nat * nat) :=
